@@ -253,9 +253,10 @@ const (
 	SigForeign                 // valid signature over the request by another key
 	SigOtherMsg                // signature by the right key over another message
 	SigGarbage                 // not base58 / wrong length
+	SigLong                    // a valid signature followed by extra bytes (for secp256k1 the accepted 65-byte form r||s||v)
 )
 
-var sigModeNames = []string{"valid", "blank", "corrupt", "foreign", "othermsg", "garbage"}
+var sigModeNames = []string{"valid", "blank", "corrupt", "foreign", "othermsg", "garbage", "long"}
 
 // BuildRequest returns the chaincode arguments (without the function name) of a signed
 // request: reqID, chaincode, channel, method args, nonce, keys..., signatures...
@@ -287,6 +288,14 @@ func BuildRequest(fn, reqID, cc, ch string, margs []string, nonce string, signer
 			out = append(out, base58.Encode(s.Sign(append([]byte("x"), msg...))))
 		case SigGarbage:
 			out = append(out, "0OIl-not-base58")
+		case SigLong:
+			sig := s.Sign(msg)
+			if s.KeyType == fpb.KeyType_secp256k1 {
+				sig = append(sig[:64:64], 0x01) // r || s || v
+			} else {
+				sig = append(append([]byte(nil), sig...), 0x01, 0x02)
+			}
+			out = append(out, base58.Encode(sig))
 		}
 	}
 	return out
